@@ -335,7 +335,9 @@ def check_exit(I, con, bindings, old_view, result, raised, exit_kind, self_obj, 
                 a, b_ = oldf.get(fld), self_obj.fields.get(fld)
                 same = getattr(a, "oid", None) is not None and getattr(a, "oid", None) == getattr(b_, "oid", None)
                 check(f"frame.{fld}.binding", bool(same))
-                if same and type(a).__name__ in ("SMap", "SColl"):
+                if same and type(a).__name__ in ("SMap", "SColl") and getattr(b_, "default_factory", None) is None:
+                    # (a defaultdict creates missing keys on read: an absent key and an empty default are
+                    # the same to every reader, so key presence is not part of its frame)
                     check(f"frame.{fld}.keys", I.eq(a, b_))
                 continue
             if fld not in oldf or fld not in self_obj.fields:
